@@ -688,6 +688,8 @@ def run(prop, tier, seed):
                     s0["tree"]["ff"] = ("R", 0o644, b"nothing of the patch matches here\n")
                 full.append(s0)
             def judge_full(s, r):
+                if s["opts"].get("r") and b"FAILED" not in r["stdout"]:
+                    return None         # (every hunk found a place, with fuzz: nothing is written to the reject file)
                 if r["exit"] != 2 or not r["stderr"].strip():
                     return "the write to /dev/full failed (ENOSPC) and the run ends with exit status %d%s" % (r["exit"], "" if r["stderr"].strip() else " without a diagnostic")
                 return None
